@@ -20,7 +20,7 @@ def build_scripts(ctx, scale):
         if i % 2: lines.append('af.rand %s' % (b.hex() if b else '-'))
     # a stuck / low-entropy generator: the same 64-bit word for the first 1300 draws (then the harness's replay generator goes on with its own
     # stream): however many candidates are rejected, what the sampler finally hands out must be a valid element
-    for w in list(range(1, 9 + 4 * scale)) + [21, 29, 35, 39, 2**64 - 1, 2**63]:
+    for w in list(range(1, 9 + 4 * min(scale, 10))) + [21, 29, 35, 39, 2**64 - 1, 2**63]:
         st = (w.to_bytes(8, 'little') * 1300).hex()
         lines.append('el.rand %s' % st)
         if w % 3 == 0: lines.append('af.rand %s' % st)
